@@ -191,6 +191,57 @@ def tx_deser(tx_: bytes, include_raw: bool = False) -> typing.Tuple[dict, bytes]
     return tx_dict, tx_prime
 
 
+def legacy_message(
+    txins: typing.List[bytes],
+    txin_index: int,
+    txouts: typing.List[bytes],
+    version: int = 1,
+    locktime: int = 0,
+    sighash_flag: int = bits.script.constants.SIGHASH_ALL,
+) -> bytes:
+    """
+    Legacy (pre-segwit) signature message for the input at txin_index, without the trailing
+    4-byte sighash type (bits.sig appends it before hashing).
+    https://en.bitcoin.it/wiki/OP_CHECKSIG
+    Args:
+        txins: list[bytes], inputs; txins[txin_index] carries the scriptCode (scriptPubKey or
+            redeem script being satisfied) as its scriptsig
+        txin_index: int, index of the input being signed
+        txouts: list[bytes], outputs
+        version: int, transaction version
+        locktime: int, transaction locktime
+        sighash_flag: int, signature hash type
+    """
+    sighash_type = sighash_flag & 0x1F
+    txins_ = []
+    for index, txin_ in enumerate(txins):
+        deserialized, _ = txin_deser(txin_)
+        outpoint_ = outpoint(bytes.fromhex(deserialized["txid"]), deserialized["vout"])
+        sequence = bytes.fromhex(deserialized["sequence"])
+        if index == txin_index:
+            scriptsig = bytes.fromhex(deserialized["scriptsig"])
+        else:
+            # other inputs are signed with empty scripts
+            scriptsig = b""
+            if sighash_type in [
+                bits.script.constants.SIGHASH_NONE,
+                bits.script.constants.SIGHASH_SINGLE,
+            ]:
+                sequence = b"\x00\x00\x00\x00"
+        txins_.append(txin(outpoint_, scriptsig, sequence=sequence))
+    if sighash_type == bits.script.constants.SIGHASH_NONE:
+        txouts_ = []
+    elif sighash_type == bits.script.constants.SIGHASH_SINGLE:
+        if txin_index >= len(txouts):
+            raise ValueError("SIGHASH_SINGLE input has no output of the same index")
+        txouts_ = [txout(0xFFFFFFFFFFFFFFFF, b"")] * txin_index + [txouts[txin_index]]
+    else:
+        txouts_ = txouts
+    if sighash_flag & bits.script.constants.SIGHASH_ANYONECANPAY:
+        txins_ = [txins_[txin_index]]
+    return tx(txins_, txouts_, version=version, locktime=locktime)
+
+
 def coinbase_txin(
     coinbase_script: bytes,
     sequence: bytes = b"\xff\xff\xff\xff",
@@ -482,26 +533,53 @@ def send_tx(
             ]
         else:
             # p2sh / p2pk / p2pkh / multisig
-            msg = tx_
-            signatures = [bits.sig(key, msg, sighash_flag=sighash_flag) for key in keys]
+            # legacy signature hash: every input is signed over its own message
+            signatures = [
+                [
+                    bits.sig(
+                        key,
+                        legacy_message(
+                            txins,
+                            txin_index,
+                            txouts,
+                            version=version,
+                            locktime=locktime,
+                            sighash_flag=sighash_flag,
+                        ),
+                        sighash_flag=sighash_flag,
+                    )
+                    for key in keys
+                ]
+                for txin_index in range(len(txins))
+            ]
 
         # form final scriptsig / witnesses
+        # (segwit types: same scriptsig for every input; legacy types: one scriptsig per input)
+        sender_scriptsigs = [sender_scriptsig] * len(txins)
         if addr_types[0] == "p2pk":
-            sender_scriptsig = bits.script.script([signatures[0].hex()])
+            sender_scriptsigs = [
+                bits.script.script([signatures[i][0].hex()]) for i in range(len(txins))
+            ]
             sender_witnesses = []
         elif addr_types[0] == "multisig":
-            sender_scriptsig = bits.script.script(
-                ["OP_0"] + [signature.hex() for signature in signatures]
-            )
+            sender_scriptsigs = [
+                bits.script.script(
+                    ["OP_0"] + [signature.hex() for signature in signatures[i]]
+                )
+                for i in range(len(txins))
+            ]
             sender_witnesses = []
         elif addr_types[0] == "p2pkh":
             compressed = True if datums[0] else False
-            sender_scriptsig = bits.script.script(
-                [
-                    signatures[0].hex(),
-                    bits.keys.pub(keys[0], compressed=compressed).hex(),
-                ]
-            )
+            sender_scriptsigs = [
+                bits.script.script(
+                    [
+                        signatures[i][0].hex(),
+                        bits.keys.pub(keys[0], compressed=compressed).hex(),
+                    ]
+                )
+                for i in range(len(txins))
+            ]
             sender_witnesses = []
         elif addr_types[0] in ["p2wpkh", "p2sh-p2wpkh"]:
             sender_witnesses = [
@@ -522,9 +600,14 @@ def send_tx(
                 script_args = []
 
             if addr_types[0] == "p2sh":
-                script_args += [signature.hex() for signature in signatures]
-                script_args += [redeem_script.hex()]
-                sender_scriptsig = bits.script.script(script_args)
+                sender_scriptsigs = [
+                    bits.script.script(
+                        script_args
+                        + [signature.hex() for signature in signatures[i]]
+                        + [redeem_script.hex()]
+                    )
+                    for i in range(len(txins))
+                ]
                 sender_witnesses = []
             elif addr_types[0] in ["p2wsh", "p2sh-p2wsh"]:
                 sender_witnesses = [
@@ -538,11 +621,11 @@ def send_tx(
                 ]
 
         txins_prime = []
-        for txi in txins:
+        for txi, scriptsig in zip(txins, sender_scriptsigs):
             txin_deserialized, _ = txin_deser(txi)
             txid = bytes.fromhex(txin_deserialized["txid"])
             vout = txin_deserialized["vout"]
-            txins_prime.append(txin(outpoint(txid, vout), sender_scriptsig))
+            txins_prime.append(txin(outpoint(txid, vout), scriptsig))
         tx_ = tx(
             txins_prime,
             txouts,
